@@ -97,7 +97,24 @@ def check_C13(ctx):
                       {"kind": "proof", "file": pr.get("broken_file"), "theorem": pr.get("broken_lemma"), "error": pr.get("error", pr.get("out", ""))[-3000:]}, nofail=True)
     if defs.get("saturated_now", "").strip() != "true" and not found_input:
         ctx.violation("C13:ontology-not-saturated", "closure fuel insufficient for this ontology", {"kind": "proof", "theorem": "ont_saturated"}, nofail=True)
+    if ctx.tier == "thorough":
+        coqchk_all(ctx, found_input)
     return finish(ctx, "proof")
+
+
+def coqchk_all(ctx, found_input):
+    """Thorough tier: the whole development (every Properties/Cxx.vo and what it depends on) re-checked by the independent
+    checker coqchk, which also lists the axioms the compiled files rely on."""
+    coq = os.path.join(ROOT, "coq")
+    okm, outm, _ = coq_make(ctx, [], timeout=6000)
+    mods = ["Verif.Properties.%s" % os.path.basename(f)[:-2] for f in sorted(glob.glob(os.path.join(coq, "Properties", "C*.v")))]
+    rc, out, dt = sh(["coqchk", "-silent", "-o", "-Q", ".", "Verif"] + mods, cwd=coq, timeout=6 * 3600)
+    ctx.note("coqchk %d modules rc=%d (%.0fs)" % (len(mods), rc, dt))
+    i = out.find("CONTEXT SUMMARY")
+    ctx.coverage["coqchk"] = {"modules": mods, "exit_code": rc, "seconds": round(dt), "built": okm, "summary": out[i:i + 3000] if i >= 0 else out[-3000:]}
+    if (rc != 0 or not okm) and not found_input:
+        ctx.violation("C13:coqchk", "the independent checker coqchk does not accept the compiled development",
+                      {"kind": "proof", "theorem": "whole development (coqchk)", "error": (out if okm else outm)[-3000:]}, nofail=True)
 
 
 def replay_C13(ctx):
@@ -512,10 +529,11 @@ def c20_concurrent(ctx):
 SHAPE = {"quick": ["-families", "shape", "-n", "1", "-faults", "none", "-maxruns", "40000", "-shards", "8"],
          "thorough": ["-families", "shape", "-n", "4", "-faults", "none", "-maxruns", "40000", "-shards", "14"]}
 SHAPE_RULE = "; structural variants: each of actor / object / target / to / cc / bto / bcc / audience / id / type / inReplyTo / attributedTo of a valid request of every inbox and outbox type made absent, empty, doubled, a plain string, an embedded value without id"
+OVERRIDES = ["-families", "overrides", "-n", "1", "-faults", "none", "-shards", "8"]
 AGAIN = {"quick": ["-families", "again", "-n", "28", "-faults", "none", "-shards", "2"], "thorough": ["-families", "again", "-n", "160", "-faults", "single", "-shards", "8"]}
 FOCUS_FAULTS = {"quick": ["-families", "fedfocus", "-n", "3", "-faults", "single", "-maxruns", "4000", "-shards", "8"],
                 "thorough": ["-families", "fedfocus", "-n", "20", "-faults", "single", "-maxruns", "40000", "-shards", "14"]}
-GATE = {"quick": ["-families", "gate", "-gate", "600"], "thorough": ["-families", "gate", "-gate", "0", "-maxruns", "40000"]}
+GATE = {"quick": ["-families", "gate", "-gate", "600", "-shards", "4"], "thorough": ["-families", "gate", "-gate", "0", "-maxruns", "60000", "-shards", "14"]}
 
 
 def check_C07(ctx):
@@ -539,9 +557,9 @@ def check_C10(ctx):
     return pub_property(ctx, "C10", "Properties/C10.v",
                         ["Pub/BaseActor.v and below, Pub/Monitors.v write_step / outcome_ok",
                          "modelled, not verified: faults of the ResponseWriter itself are outside the quantifier; header writes are observed when the status is written"],
-                        {"monitors": ["outcome_bad"], "classify": classify,
-                         "rule": "C07 request product plus every standard scenario with every single fault; judged by the strict outcome monitor (201 => Location = first generated id)"},
-                        run_specs=[("gate", GATE[ctx.tier]), ("shape", SHAPE[ctx.tier]), ("again", AGAIN[ctx.tier]), ("std", PUB_STD[ctx.tier])])
+                        {"monitors": ["outcome_bad", "status_bad"], "classify": classify,
+                         "rule": "C07 request product plus every standard scenario with every single fault; judged by the strict outcome monitor (201 => Location = first generated id); the documented status: every status, header, body and (handled, error) result of the implementation compared with the model's on the same request, configuration and answers (judge status_bad)"},
+                        run_specs=[("gate", GATE[ctx.tier]), ("shape", SHAPE[ctx.tier]), ("overrides", OVERRIDES), ("again", AGAIN[ctx.tier]), ("std", PUB_STD[ctx.tier])])
 
 
 def replay_C10(ctx):
@@ -576,7 +594,7 @@ def check_C20(ctx):
                         {"monitors": ["serve_bad"], "classify": classify, "extra": c20_concurrent,
                          "rule": "random pages with 0..11 items as IRIs or embedded values with duplicates anywhere, a stored value of every vocabulary type, Tombstones, hidden recipients at object depth 0..2, random clock instants; every single fault"},
                         family_filter=lambda f: f.startswith(("get:", "again:get-twice")),
-                        run_specs=[("get", ["-families", "get,gettypes", "-n", n, "-faults", "single", "-maxruns", "6000"]), ("again", AGAIN[ctx.tier])])
+                        run_specs=[("get", ["-families", "get,gettypes", "-n", n, "-faults", "single", "-maxruns", "6000", "-shards", "4"]), ("again", AGAIN[ctx.tier])])
 
 
 def replay_C20(ctx):
@@ -594,7 +612,7 @@ def check_C02(ctx):
                         {"monitors": ["delivery_bad"], "classify": classify,
                          "rule": "random federation graphs (family deliver: up to 10 actors and collections, nested / cyclic collections, duplicates, both Public spellings, the sender, unreachable / garbled / unknown-type documents, any subset of stored inboxes, depth 1..4) through Send, plus every standard outbox scenario; single faults; the real trace is judged against spec_targets of the graph read off that trace"},
                         family_filter=lambda f: f.startswith(("outbox:", "send:", "deliver:", "again:two-outboxes")),
-                        run_specs=[("deliver", ["-families", "deliver", "-n", n, "-faults", "single", "-maxruns", "6000"]), ("again", AGAIN[ctx.tier]), ("std", PUB_STD[ctx.tier])])
+                        run_specs=[("deliver", ["-families", "deliver", "-n", n, "-faults", "single", "-maxruns", "6000", "-shards", "8"]), ("again", AGAIN[ctx.tier]), ("std", PUB_STD[ctx.tier])])
 
 
 def replay_C02(ctx):
@@ -629,7 +647,7 @@ def check_C16(ctx):
                         {"monitors": ["effects_bad", "targets_bad"], "classify": classify,
                          "rule": "stored objects against random partial updates with overlapping / disjoint / null members; 1..3 objects and targets per Add/Remove (owned, not owned, ordered, unordered, duplicates); Like and Block with 1..3 objects; object / target absent; every single fault; each Database.Update of the real run compared with the effect function applied to what the real Get returned"},
                         family_filter=lambda f: f.startswith(("outbox:", "send:", "effects:", "shape:outbox:")),
-                        run_specs=[("shape", SHAPE[ctx.tier]), ("effects", ["-families", "effects", "-n", "10" if ctx.tier == "quick" else "150", "-faults", "single", "-maxruns", "20000"]), ("std", PUB_STD[ctx.tier])])
+                        run_specs=[("shape", SHAPE[ctx.tier]), ("effects", ["-families", "effects", "-n", "10" if ctx.tier == "quick" else "150", "-faults", "single", "-maxruns", "20000", "-shards", "8"]), ("std", PUB_STD[ctx.tier])])
 
 
 def replay_C16(ctx):
@@ -646,7 +664,7 @@ def diverge_classify(pid):
 def check_C04(ctx):
     base = diverge_classify("C04")
     def classify(name, fields, run):
-        if name == "diverge_bad" and not run["family"].startswith(("inbox:", "shape:inbox:")):
+        if name == "diverge_bad" and not run["family"].startswith(("inbox:", "shape:inbox:", "overrides:inbox:")):
             return (None, None)
         return base(name, fields, run)
     return pub_property(ctx, "C04", "Properties/C04.v",
@@ -655,8 +673,8 @@ def check_C04(ctx):
                          "modelled, not verified: the fetch of an object given by IRI is the recorded Transport.Dereference answer decoded by the model's to_type"],
                         {"monitors": ["fed_bad", "diverge_bad", "targets_bad"], "classify": classify,
                          "rule": "each handled activity type with 1..3 objects / targets / actors as IRIs or embedded values, owned or not, ordered / unordered collections, absent or present likes / shares, OnFollow in {nothing, accept, reject}, no / wrapped / overriding application callback; every single fault; own_step / eff_step / quiet predicates evaluated on the callback segment of each real trace"},
-                        family_filter=lambda f: f.startswith(("inbox:", "shape:inbox:")),
-                        run_specs=[("shape", SHAPE[ctx.tier]), ("fedfocus", ["-families", "fedfocus", "-n", "10" if ctx.tier == "quick" else "200", "-faults", "none", "-maxruns", "20000"]),
+                        family_filter=lambda f: f.startswith(("inbox:", "shape:inbox:", "overrides:inbox:")),
+                        run_specs=[("shape", SHAPE[ctx.tier]), ("overrides", OVERRIDES), ("fedfocus", ["-families", "fedfocus", "-n", "10" if ctx.tier == "quick" else "200", "-faults", "none", "-maxruns", "20000"]),
                                    ("focusfaults", FOCUS_FAULTS[ctx.tier]), ("std", PUB_STD[ctx.tier])])
 
 
@@ -971,7 +989,7 @@ def check_C03(ctx):
                         {"monitors": ["hidden_bad", "reached_bad"], "classify": classify,
                          "rule": "all outbox/Send scenarios (every activity type, bare objects, 1..3 embedded objects with any mixture of the five addressing properties as IRIs or embedded actors, Social only / both), automatic Accept/Reject, served values with bto/bcc at object depth 0..2; single faults"},
                         run_specs=[("hidden", ["-families", "hidden", "-n", "42" if ctx.tier == "quick" else "420", "-faults", "single", "-maxruns", "6000", "-shards", "4"]),
-                                   ("std", PUB_STD[ctx.tier]), ("get", ["-families", "get,gettypes", "-n", n, "-faults", "single", "-maxruns", "6000"])])
+                                   ("std", PUB_STD[ctx.tier]), ("get", ["-families", "get,gettypes", "-n", n, "-faults", "single", "-maxruns", "6000", "-shards", "4"])])
 
 
 def replay_C03(ctx):
